@@ -1089,7 +1089,7 @@ def c09(tier):
     s.model("MCErrorQueue", ("MCErrorQueueParams", [("K", "2"), ("MaxOps", "6"), ("Variant", '"dropoldest"')]),
             expect_violation="OlderIntact", label="MCErrorQueue mutant: overflow drops the oldest")
     s.model("MCErrorQueue", ("MCErrorQueueParams", [("K", "2"), ("MaxOps", "6"), ("Variant", '"dropnew"')]),
-            expect_violation="MarkerOnlyAtBack", label="MCErrorQueue mutant: overflow drops the new error silently")
+            expect_violation="OverflowAtBack", label="MCErrorQueue mutant: overflow drops the new error silently")
     # 2. end to end: every grouping of faults / queries / commands into messages, implementation-shaped run refines
     hist = {}
     for K in ([1, 2] if tier == "quick" else [1, 2, 3, 4]):
@@ -1106,8 +1106,8 @@ def c09(tier):
             cases.append(run_case(whole, iface="queue%d" % K))
     # 3. seeded long sessions on every capacity incl. the documented 10: one run buffer, run per message, process
     for K in (1, 2, 3, 4, 10):
-        for _ in range(40 if tier == "quick" else 400):
-            msgs = random_history(s.rng, QUEUE_VOCAB + ["D !", "SYST:ERR?;:SYST:ERR:COUN?"], s.rng.randint(5, 60), maxunits=3)
+        for _ in range(12 if tier == "quick" else 300):
+            msgs = random_history(s.rng, QUEUE_VOCAB + ["D !", "SYST:ERR?;:SYST:ERR:COUN?"], s.rng.randint(5, 40), maxunits=3)
             whole = "".join(msgs)
             cases.append(run_case(whole, iface="queue%d" % K))
             cases.append(runs_case(msgs, iface="queue%d" % K))
@@ -1136,7 +1136,7 @@ def c09(tier):
                     ops.append({"op": "count"})
             cases.append({"kind": "queue", "K": K, "ops": ops})
     recs = s.execute(cases, "c09")
-    rejected = s.validate(recs, "c09", chunk=3000)
+    rejected = s.validate(recs, "c09", chunk=500)
     s.report_rejected(rejected, "errors were not returned oldest first, the count was wrong, the queue exceeded its capacity, or overflow did not "
                                 "replace exactly the newest entry by -350")
     s.sample(recs[:1] + [r for r in recs if r["kind"] == "queue"][:1])
@@ -1312,7 +1312,7 @@ def c04(tier):
     writers = [{"k": "rec"}, {"k": "std"}, {"k": "heapless", "cap": 2048}, {"k": "heapless", "cap": 16}, {"k": "heapless", "cap": 4}]
     msgs = []
     for ty, (lo, hi) in INT_BOUNDS.items():
-        for v in sorted({lo, lo + 1, -1, 0, 1, 9, 10, 99, 100, hi - 1, hi} & set(range(lo, hi + 1)) | {lo, hi}):
+        for v in sorted(x for x in {lo, lo + 1, -1, 0, 1, 9, 10, 99, 100, hi - 1, hi} if lo <= x <= hi):
             msgs.append("R:%s? %d" % (TYNAME[ty], v))
     for c in desc["cmds"]:
         sp = c["beh"].get("spec", {})
@@ -1336,15 +1336,16 @@ def c04(tier):
         s32.append(s.rng.getrandbits(32))
     f32m = ["R:F32? %d" % x for x in s32]
     cases = []
+    u8 = lambda t: list(t.encode("utf8"))   # noqa: E731
     for m in msgs + f64m + f32m:
-        cases.append({"kind": "multi", "iface": "resp", "in": b(m + "\n"), "writers": writers, "procs": [{"N": 1024, "chunks": []}]})
+        cases.append({"kind": "multi", "iface": "resp", "in": u8(m + "\n"), "writers": writers, "procs": [{"N": 1024, "chunks": []}]})
     # sequences: execution order, no output for failures, several responses in one message
     pool = msgs + f64m[:40]
     for _ in range(300 if tier == "quick" else 3000):
         k = s.rng.randint(2, 5)
         seq = [s.rng.choice(pool) for _ in range(k)]
         whole = ";:".join(seq) + "\n"
-        cases.append({"kind": "multi", "iface": "resp", "in": b(whole), "writers": writers[:3], "procs": [{"N": 1024, "chunks": []}]})
+        cases.append({"kind": "multi", "iface": "resp", "in": u8(whole), "writers": writers[:3], "procs": [{"N": 1024, "chunks": []}]})
     recs = s.execute(cases, "c04")
     rejected = s.validate(recs, "c04", chunk=300)
     s.report_rejected(rejected, "a response is missing, malformed, out of order, does not decode to the returned value, differs between writers, "
